@@ -53,8 +53,9 @@ import (
 const nObj = 8 // container 0, object 0..7 (every object ID used with one container only)
 
 type step struct {
-	Op string // put get stream del adv outage failon failoff block release flush mode reopen
+	Op string // put get stream del adv outage failon failoff block release pulse rif flush mode reopen
 	I  int
+	A  []int
 	N  int
 	B  bool
 	M  mode.Mode
@@ -66,6 +67,8 @@ func (s step) String() string {
 		return fmt.Sprintf("%s(%d)", s.Op, s.I)
 	case "adv", "outage":
 		return fmt.Sprintf("%s(%ds)", s.Op, s.N)
+	case "rif":
+		return fmt.Sprintf("rif(put%v,reput=%d)", s.A, s.I)
 	case "flush":
 		return fmt.Sprintf("flush(ignoreErrors=%v)", s.B)
 	case "mode":
@@ -88,12 +91,12 @@ func genCfg(t *rapid.T) cfg {
 	c.Thr = rapid.SampledFrom([]int{300, 600}).Draw(t, "thr")
 	c.BatchCount = rapid.SampledFrom([]int{2, 3, 128}).Draw(t, "bcount")
 	c.BatchSize = rapid.SampledFrom([]int{0, 2*c.Thr + 100}).Draw(t, "bsize")
-	c.Workers = rapid.SampledFrom([]int{1, 2, 20}).Draw(t, "workers")
+	c.Workers = rapid.SampledFrom([]int{1, 1, 2, 20}).Draw(t, "workers")
 	// mostly everything fits; sometimes the cache is too small and puts fall back to the blob storage
 	c.M = rapid.SampledFrom([]int{1 << 20, 1 << 20, 1 << 20, 1500, 700}).Draw(t, "M")
 	c.Readers = rapid.IntRange(1, 3).Draw(t, "readers")
 	for i := range c.Sizes {
-		if rapid.Bool().Draw(t, "small") {
+		if rapid.IntRange(0, 4).Draw(t, "small") < 3 {
 			c.Sizes[i] = rapid.OneOf(rapid.IntRange(wcobj.MinObjSize, c.Thr), rapid.Just(c.Thr), rapid.Just(c.Thr-1)).Draw(t, "size")
 			c.Sizes[i] = min(wcobj.Reach(c.Sizes[i]), c.Thr)
 		} else {
@@ -105,10 +108,10 @@ func genCfg(t *rapid.T) cfg {
 
 var modes = []mode.Mode{mode.ReadWrite, mode.ReadOnly, mode.DegradedReadOnly}
 
-func genSteps(t *rapid.T) []step {
+func genSteps(t *rapid.T, c cfg) []step {
 	n := rapid.IntRange(5, 25).Draw(t, "nsteps")
 	faulty := rapid.IntRange(0, 2).Draw(t, "faulty") > 0
-	ops := []string{"put", "put", "put", "put", "get", "stream", "del", "adv", "adv", "adv", "block", "block", "release", "flush", "mode", "mode", "reopen"}
+	ops := []string{"put", "put", "put", "put", "get", "stream", "del", "adv", "adv", "adv", "block", "block", "release", "pulse", "rif", "rif", "flush", "mode", "mode", "reopen"}
 	if faulty {
 		ops = append(ops, "outage", "outage", "failon", "failoff")
 	}
@@ -118,6 +121,24 @@ func genSteps(t *rapid.T) []step {
 		switch s.Op {
 		case "put", "get", "stream", "del":
 			s.I = rapid.IntRange(0, nObj-1).Draw(t, "i")
+		case "rif":
+			// re-put of a batch member during an in-flight batch flush: put a few
+			// objects, let the scheduler build batches with the blob storage
+			// blocked (with fewer workers than batches a later batch waits at the
+			// hand-over, unread), delete one, let the flusher advance by one
+			// blocked call, put it again, release
+			// (only batched, i.e. small, objects matter; take them when there are enough)
+			pool := make([]int, 0, nObj)
+			for i, sz := range c.Sizes {
+				if sz <= c.Thr {
+					pool = append(pool, i)
+				}
+			}
+			if len(pool) < 3 {
+				pool = []int{0, 1, 2, 3, 4, 5, 6, 7}
+			}
+			s.A = rapid.SliceOfNDistinct(rapid.SampledFrom(pool), 3, 6, rapid.ID[int]).Draw(t, "set")
+			s.I = rapid.SampledFrom(s.A).Draw(t, "i")
 		case "adv":
 			s.N = rapid.OneOf(rapid.IntRange(1, 3), rapid.IntRange(1, 12)).Draw(t, "n")
 		case "outage":
@@ -139,6 +160,7 @@ type faults struct {
 	gate     chan struct{}
 	direct   bool // the schedule's own Shard.Put is running: its blob Put must not block on the gate
 	blocked  int
+	parked   [][]oid.Address     // addresses of the PutBatch calls parked at the current gate
 	inflight map[oid.Address]int // address is inside a blob Put/PutBatch right now
 	flushSeq map[oid.Address]int // number of blob Put/PutBatch calls started for the address
 }
@@ -256,6 +278,9 @@ func (e *env) installHooks() {
 		}
 		if g != nil {
 			f.blocked++
+			if m == "PutBatch" {
+				f.parked = append(f.parked, addrs)
+			}
 		}
 		f.mu.Unlock()
 		if g != nil {
@@ -294,10 +319,31 @@ func (e *env) openGate() {
 		e.labels["released-blocked-flush"] = true
 	}
 	e.f.blocked = 0
+	e.f.parked = nil
 	e.f.mu.Unlock()
 	if g != nil {
 		close(g)
 	}
+}
+
+// pulse lets the calls that are parked at the gate proceed and parks the next
+// ones: the flusher advances by one blocked blob call per worker.
+func (e *env) pulse() {
+	e.f.mu.Lock()
+	g := e.f.gate
+	if g != nil {
+		e.f.gate = make(chan struct{})
+		if e.f.blocked > 0 {
+			e.labels["released-blocked-flush"] = true
+		}
+		e.f.blocked = 0
+		e.f.parked = nil
+	}
+	e.f.mu.Unlock()
+	if g != nil {
+		close(g)
+	}
+	synctest.Wait()
 }
 
 func (e *env) flushState(a oid.Address) (inflight bool, seq int) {
@@ -581,6 +627,38 @@ func (e *env) run(s step) {
 		e.block()
 	case "release":
 		e.withReaders(func() { e.release() })
+	case "pulse":
+		e.withReaders(func() { e.pulse() })
+	case "rif":
+		for _, j := range s.A {
+			if _, ok := e.live[e.objs[j].addr]; !ok {
+				e.run(step{Op: "put", I: j})
+			}
+		}
+		target := e.objs[s.I].addr
+		_, cachedBefore := e.cacheList()[target.EncodeToString()]
+		e.block()
+		e.withReaders(func() { e.advance(1) }) // one scheduler round against the blocked blob storage
+		e.run(step{Op: "del", I: s.I})
+		e.pulse()
+		// candidate of the class: the object was cached when the round started and
+		// a batch that does not carry it is now parked inside PutBatch
+		e.f.mu.Lock()
+		cand := false
+		for _, b := range e.f.parked {
+			has := false
+			for _, a := range b {
+				has = has || a == target
+			}
+			cand = cand || !has
+		}
+		e.f.mu.Unlock()
+		if cand && cachedBefore {
+			e.label("reput-during-parked-batch-flush")
+		}
+		e.run(step{Op: "put", I: s.I})
+		e.readAll("rif: after re-put, batch flush parked")
+		e.withReaders(func() { e.release() })
 	case "flush":
 		e.withReaders(func() {
 			done := make(chan error, 1)
@@ -621,7 +699,7 @@ func TestC16(t *testing.T) {
 	tt := t
 	rapid.Check(t, func(t *rapid.T) {
 		c := genCfg(t)
-		steps := genSteps(t)
+		steps := genSteps(t, c)
 		bubble.Run(tt, func() { runCase(t, rec, c, steps) })
 	})
 }
